@@ -264,20 +264,9 @@ def check_one_corruption(raw, mutated, where, fails, stats):
     if ag._fwd_queue:
         acted.append('queued for forwarding')
     if acted:
-        # Cause classification (for the recorded finding C08/re-encode): AbstractBlock.check_crc compares the CRC
-        # field with the CRC of the block *re-encoded from its decoded values*, not of the received octets.  A
-        # corruption that the decoder maps to values whose re-encoding differs from what was received, and whose
-        # re-encoding carries matching CRCs (independent check), is accepted for exactly that reason.  Anything
-        # else accepted is a different failure.
+        # (the cause that used to be accepted here -- the CRC compared with one over the block re-encoded from its decoded
+        # values -- is repaired in the repository, see known_findings.json; every corrupted bundle acted on is a failure)
         name = 'I-corrupted-bundle-acted-on'
-        try:
-            again = bytes(Bundle(mutated))
-            probe = []
-            check_output_bundle(again, {}, probe)
-            if again != mutated and not probe:
-                name = 'I-known-reencode'
-        except Exception:  # noqa
-            pass
         fails.append({'check': name, 'case': where, 'got': acted, 'original_hex': raw.hex(), 'mutated_hex': mutated.hex()})
 
 
